@@ -1,6 +1,7 @@
 """C13 - tracks and networks written to file are read back unchanged (io/*, ObsTime formats)."""
 import ast
 import re
+import itertools
 
 from ..alg import Rat
 from ..loader import shape_error, anchor_error
@@ -903,6 +904,7 @@ def rule_X(ctx):
             found.setdefault('gpx-fails', ('GPX files written by the writer can be read back', dict(case, exception='%s: %s' % (type(ex).__name__, str(ex)[:200]))))
     # ---- network CSV
     fnw = ctx.prog.func('tracklib.io.network_writer.NetworkWriter.writeToCsv')
+    fwkt = ctx.prog.func(TRACK + '.toWKT')
     H = netmodel.Harness(ctx)
     nfn = H.fn
     from .. import iomodel
@@ -964,24 +966,28 @@ def rule_X(ctx):
         got_nodes = {k_: (n_.fields['coord'].getX(), n_.fields['coord'].getY()) for k_, n_ in nd.items()} if isinstance(nd, dict) else None
         if got_nodes != want_nodes:
             found.setdefault('net-nodes', ('the network read back has the same nodes, at the same places (the ends of the edge geometries)', dict(case, written=want_nodes, read=got_nodes)))
-    # ---- WKT text of a track
-    n_cases += 1
-    try:
-        t = T([O(kinds['ENU'](x, y, 0.0), OT(*stamps[0])) for x, y in ((0.0, 0.0), (-12.5, 3.25), (1234.567, -0.001), (1e-05, 7.0))], 'u', 'w')
-        txt = t.call('toWKT')
-        back = TR.parseWkt(txt)
-        obs = back.fields.get('_Track__POINTS') if isinstance(back, orders.Obj) else None
-        got = [(o.position.getX(), o.position.getY()) for o in obs] if obs else None
-        if got != [(0.0, 0.0), (-12.5, 3.25), (1234.567, -0.001), (1e-05, 7.0)]:
-            found.setdefault('wkt', ('a track exported as WKT text and parsed back has the same planimetric coordinates', {'text': txt, 'read': got}))
-    except orders.Unsupported as ex:
-        raise shape_error('WKT export/parse not interpretable: %s' % ex, fw.loc())
-    except (IndexError, KeyError, TypeError, AttributeError, ValueError, orders.Raised) as ex:
-        found.setdefault('wkt', ('a track exported as WKT text can be parsed back', {'exception': '%s: %s' % (type(ex).__name__, str(ex)[:200])}))
+    # ---- WKT text of a track: ENU and geographic coordinates, held as Python floats, Python ints and numpy scalars
+    from ..npstub import NpF64
+    xy = ((0.0, 0.0), (-12.5, 3.25), (1234.567, -0.001), (1e-05, 7.0), (0.1 + 0.2, -1.0 / 3.0))
+    for ckind, (vname, wrapv, pts_) in itertools.product(('ENU', 'GEO'), (('Python floats', float, xy), ('Python ints', int, ((0, 0), (3, -4), (-7, 1000000))), ('numpy float64 scalars', NpF64, xy))):
+        n_cases += 1
+        case = {'coordinates': ckind, 'values held as': vname}
+        try:
+            t = T([O(kinds[ckind](wrapv(x), wrapv(y), 0.0), OT(*stamps[0])) for x, y in pts_], 'u', 'w')
+            txt = t.call('toWKT')
+            back = TR.parseWkt(txt)
+            obs = back.fields.get('_Track__POINTS') if isinstance(back, orders.Obj) else None
+            got = [(o.position.getX(), o.position.getY()) for o in obs] if obs else None
+            if got != [(float(x), float(y)) for x, y in pts_]:
+                found.setdefault('wkt', ('a track exported as WKT text and parsed back has the same planimetric coordinates', dict(case, text=txt, read=got)))
+        except orders.Unsupported as ex:
+            raise shape_error('WKT export/parse not interpretable: %s' % ex, fw.loc())
+        except (IndexError, KeyError, TypeError, AttributeError, ValueError, orders.Raised) as ex:
+            found.setdefault('wkt', ('a track exported as WKT text can be parsed back', dict(case, exception='%s: %s' % (type(ex).__name__, str(ex)[:200]))))
     for key, (desc, wit) in sorted(found.items()):
-        f_ = fnw if key.startswith('net') else fw
+        f_ = fnw if key.startswith('net') else (fwkt if key.startswith('wkt') else fw)
         ctx.violation('C13.X', f_, desc, wit, node=f_.node, key=key)
-    for fam, f_ in (('gpx', fw), ('net', fnw), ('wkt', fw)):
+    for fam, f_ in (('gpx', fw), ('net', fnw), ('wkt', fwkt)):
         if not any(k.startswith(fam) for k in found):
             ctx.ok('C13.X', f_, {'gpx': 'GPX: one file and one file per track read back identical (1e-8 degree, to the second); print format restored',
                                  'net': 'network CSV: edges, end nodes, orientations (0, 1, -1) and multi-vertex geometries read back identical (3 separator/header cases)',
